@@ -16,6 +16,7 @@ from pyvc.registry import Contract, resolve
 from pyvc.runner import Lemma, Bounded
 from pyvc.lib import c15_models as cm
 from . import C09
+from . import C13
 from .common import registry, forall, implies, AND, OR, NOT, opt_int
 
 LEVEL = "proof"
@@ -33,7 +34,8 @@ def make_registry():
     cm.install(reg)
     _REG["reg"] = reg
     for c in CONTRACTS:
-        reg.add_contract(c)
+        if c not in C13_CONTRACTS:
+            reg.add_contract(c)
     for c in CALLSITE_ONLY:
         reg.contracts[c.func] = c
     reg.abstract_classes.add(f"{DR}:DriftInterpolator")
@@ -724,7 +726,23 @@ C_CCS = Contract(f"{IU}:cross_correlation_shift", setup=lambda ctx: NS(im_ref=No
                  note="opaque: returns some (row, col) shift [and the shifted image]; its accuracy is the bounded fixed-point check")
 _REG = {}
 
-CONTRACTS = [C_PP4, C_PP3, C_PP, C_AT, C_KDE, C_TC, C_WI, C_TR, C_DI_INIT, C09.C_SUBDIVIDE, C09.C_GENERATE]
+
+
+def _foreign(con, mod):
+    """A contract object of another property module, re-verified in this check with THAT module's registry (its library
+    models differ from C15's: C13 models FFT data symbolically, C15 treats it as opaque)."""
+    import copy
+
+    c = copy.copy(con)
+    c.verify = lambda reg, mutate_goal=None, _c=con, _m=mod: _c.verify(_m.make_registry(), mutate_goal)
+    return c
+
+
+# the fixed-point clause rests on cross_correlation_shift / dft_upsample: C13's contracts (window centred on the coarse peak,
+# sample a of the window at centre + (a - centre_index)/up, returned shift = position of the local peak) are part of this check
+C13_CONTRACTS = [_foreign(C13.C_CCS, C13), _foreign(C13.C_CCS2, C13), _foreign(C13.C_DFTN, C13)]
+
+CONTRACTS = [C_PP4, C_PP3, C_PP, C_AT] + C13_CONTRACTS + [C_KDE, C_TC, C_WI, C_TR, C_DI_INIT, C09.C_SUBDIVIDE, C09.C_GENERATE]
 CALLSITE_ONLY = [C_CALCERR, C_CCS]
 
 # ------------------------------------------------------------------------------------------------
@@ -812,7 +830,31 @@ def lemma_weight_total(ctx):
             ("all-batches-give-n", hyp, AND(P(0) == 0, P(nb) == n))]
 
 
-LEMMAS = [Lemma("geometry", lemma_geometry, uses=["DriftCorrection.preprocess", "DriftInterpolator.transform_coordinates"]),
+def lemma_fixed_point(ctx):
+    """The fixed-point clause stated through the contracts: C13's postcondition of cross_correlation_shift (per axis: the
+    upsampling window is centred on coarse peak + parabolic vertex (mod n); sample a of the window sits at
+    centre + (a - centre_index)/up [dft_upsample]; the returned shift is the position of the local peak + local vertex/up (mod n)
+    and lies in the centred cell [-n/2, n/2)) applied to two IDENTICAL canvases, whose correlation is an autocorrelation
+    (TRUSTED mathematics, hypotheses below: maximal at zero lag and at the window centre, symmetric neighbours), gives a zero
+    measured shift; align_translation's proved clause `zero-measured-shifts => knots do not move` then gives the fixed point."""
+    n, up, m1, m2, lp, ci, x0 = I("n"), I("up"), I("m1"), I("m2"), I("local_peak"), I("centre_index"), I("coarse_peak")
+    v0, v1, v2, l0, l1, l2 = Rl("v_m1"), Rl("v_0"), Rl("v_p1"), Rl("l_m1"), Rl("l_0"), Rl("l_p1")
+    centre, r, r1 = Rl("window_centre"), Rl("shift"), Rl("shift_no_upsampling")
+    post_window = centre == R_(x0) + C13.vertex(v0, v1, v2) - R_(m1) * R_(n)              # C13: upsampling-window-centred-on-coarse-peak+vertex(mod-n)
+    post_shift = r == centre + (R_(lp) - R_(ci)) / R_(up) + C13.vertex(l0, l1, l2) / R_(up) - R_(m2) * R_(n)  # C13: congruent-to-position-of-local-peak+vertex/up(mod-n)
+    post_plain = r1 == R_(x0) + C13.vertex(v0, v1, v2) - R_(m1) * R_(n)                   # C13: congruent-to-coarse-peak+parabolic-vertex (upsample <= 1)
+    auto = [x0 == 0, v0 == v2, C13.curvature(v0, v1, v2) != 0]                            # autocorrelation: peak at zero lag, symmetric, not flat
+    auto_local = [lp == ci, l0 == l2, C13.curvature(l0, l1, l2) != 0]                     # its upsampled window: peak at the window centre, symmetric
+    size = [n >= 1, up >= 2]
+    return [("upsampled:identical-images-give-zero-shift", size + auto + auto_local + [post_window, post_shift, C13.in_cell(r, n)], r == 0),
+            ("not-upsampled:identical-images-give-zero-shift", [n >= 1] + auto + [post_plain, C13.in_cell(r1, n)], r1 == 0),
+            # what a caller-side centre index that differs from the callee's does (seeded change D): a bias of (ci' - ci)/up
+            ("centre-index-must-be-the-window's", size + auto + auto_local + [post_window, r == centre + (R_(lp) - R_(ci) - 1) / R_(up) - R_(m2) * R_(n), C13.in_cell(r, n), 2 * up < n],
+             r == -1 / R_(up))]
+
+
+LEMMAS = [Lemma("fixed-point-through-the-cross-correlation-contract", lemma_fixed_point, uses=["cross_correlation_shift (C13)", "dft_upsample (C13)", "DriftCorrection.align_translation"]),
+          Lemma("geometry", lemma_geometry, uses=["DriftCorrection.preprocess", "DriftInterpolator.transform_coordinates"]),
           Lemma("knot-counts-agree", lemma_knot_counts_agree, uses=["DriftInterpolator.transform_coordinates"]),
           Lemma("rotation", lemma_rotation), Lemma("bilinear-weights", lemma_bilinear),
           Lemma("weight-total", lemma_weight_total, uses=["generate_batches", "bilinear_kde"])]
@@ -1148,15 +1190,17 @@ def fam_align_bookkeeping(tier="quick", seed=0):
 
 
 def klass_align(inp, res):
-    return "upsample_factor>=2" if inp["upsample_factor"] >= 2 else "upsample_factor=1"
+    up = inp["upsample_factor"]
+    return "upsample_factor=1" if up <= 1 else f"upsample_factor {'odd' if up % 2 else 'even'} >= 2"
 
 
 def fam_align(tier="quick", seed=0):
     i = 0
-    for (H, W) in [(8, 8), (10, 16), (9, 7), (12, 5)] + ([(16, 16), (15, 22)] if tier == "thorough" else []):
+    # odd AND even upsampling factors: the centre of the upsampled window is ceil(1.5*up), which differs from int(1.5*up) for odd up
+    for (H, W) in [(8, 8), (10, 16), (9, 7)] + ([(12, 5), (16, 16), (15, 22)] if tier == "thorough" else []):
         for N in STACK:
-            for up in (1, 2, 8) + ((4, 16) if tier == "thorough" else ()):
-                for th in (0.0, 30.0, 90.0):
+            for up in (1, 2, 3, 4, 5, 6, 7, 8, 16) + ((9, 11, 12, 32) if tier == "thorough" else ()):
+                for th in (0.0, 30.0) + ((90.0,) if tier == "thorough" else ()):
                     i += 1
                     yield dict(H=H, W=W, N=N, K=1 + (i // 2) % 4, upsample_factor=up, theta=th, pad_fraction=(0.25, 0.0, 0.5)[i % 3], kde_sigma=(0.5, 1.0)[i % 2], seed=seed + i)
 
@@ -1314,7 +1358,7 @@ BOUNDED = [
     Bounded.from_rt("align_translation bookkeeping with prescribed shifts (cross-correlation replaced inside the checker process)", rt_align_bookkeeping, fam_align_bookkeeping,
                     "2 shapes x stacks 2..4 x 1..4 knots x random / zero shifts"),
     Bounded.from_rt("identical stack is a fixed point of align_translation", rt_align, fam_align,
-                    "4 shapes (6 thorough), stacks of 2..4, upsample 1,2,8 (+4,16), 3 angles, 1..4 knots", klass=klass_align),
+                    "3 shapes (6 thorough), stacks of 2..4, upsample 1..8,16 odd and even (+9,11,12,32), 2 angles (3), 1..4 knots", klass=klass_align),
 ]
 
 TRUSTED = [
@@ -1327,7 +1371,10 @@ TRUSTED = [
     "A4: cos^2 + sin^2 = 1 at the occurring angles (ground instances)",
     "Dataset2d seen as (.shape, .array); Dataset3d.from_shape(shape) seen as an object with a zero .array of that shape",
     "ASSUMED FRAME (not verified): DriftCorrection.calculate_error writes only self.error_track",
-    "OPAQUE (not verified): cross_correlation_shift returns some pair of reals (and an array); np.fft.fft2 results are opaque values",
+    "at the call site in align_translation cross_correlation_shift is OPAQUE (some pair of reals and an array; np.fft.fft2 results are opaque values); its own "
+    "contract (C13's objects C_CCS/C_CCS2/C_DFTN, re-verified in this check with C13's registry) is connected to the fixed-point clause by the lemma "
+    "`fixed-point-through-the-cross-correlation-contract`, whose hypotheses about the AUTOCORRELATION of a real image (maximal at zero lag and at the centre of its "
+    "upsampled window, symmetric neighbours, non-flat) are trusted mathematics (Cauchy-Schwarz; ties excluded), not proved",
     "generate_batches / subdivide_batches contracts of C09 (re-verified here from the real source)",
     "pyvc engine (AST interpreter, index-function arrays, loop rule with havoc of loop-carried names and of arrays written in place), z3, cvc5",
 ]
